@@ -11,7 +11,7 @@ from dsim import e1_frames, e2_lod
 
 NAME = "e12"
 CHUNK = 20
-RUNS = {"C20": (12000, 200000)}
+RUNS = {"C20": (12000, 600000)}
 RULE = ("E1 histories (2/3 of the runs): " + e1_frames.RULE + " || E2 histories (1/3): " + e2_lod.RULE +
         " || render observers are scheduled between the other operations with seeded max_rows/"
         "max_width/truncate_width/max_elements/max_items, COLUMNS and PRINT_* settings")
